@@ -434,9 +434,17 @@ def check_C13(cx):
         sched = [boot_move("%s(%s)" % (s["action"], s["args"])) if s["args"] else boot_move(s["action"]) for s in res["trace"] if s["action"] != "Init"]
         cases = [boot_case("regress", boot_consts([1], [L(1)], 0, 1), schedule=sched)]
         cx.absorb(run_driver(cx.driver, "boot", cases, cx.wd, tag="regress"), cases)
-    for name, consts in mcs[:2] if quick else mcs[:4]:
+    # "l1x0": Listener.Close racing the listener's own start-up, small enough for the quick tier's 500 paths to walk every
+    # edge of its graph (the larger graphs are only sampled there; the thorough tier walks them completely)
+    x0 = ("l1x0", boot_consts([1], [L(1), X(1)], 0, 1))
+    res = generic_mc(cx, "MCl1x0", "Bootstrap", x0[1], inv, what="C13 final state after Shutdown, program l1x0")
+    for name, consts in (mcs[:2] + [x0] if quick else mcs[:4] + mcs[5:6] + [x0]):
         init, adj = generic_graph(cx, "G" + name, "Bootstrap", consts)
-        paths, total, planned = edge_cover(init, adj, cx.rnd, max_paths=500 if quick else 40000)
+        if name == "l1x0":
+            # every pair of consecutive transitions, not only every transition: an implementation that splits one of
+            # the specification's atomic steps differently shows only when a particular step follows another directly
+            init, adj = pair_graph(init, adj)
+        paths, total, planned = edge_cover(init, adj, cx.rnd, max_paths=None if name == "l1x0" else (500 if quick else 40000))
         cases = [boot_case("%s-p%d" % (name, i), consts, schedule=[boot_move(l) for _, l, _ in p],
                            rand={"seed": cx.rnd.randrange(1 << 40), "policy": "uniform"}) for i, p in enumerate(paths)]
         rs = run_driver(cx.driver, "boot", cases, cx.wd, tag=name)
@@ -494,6 +502,9 @@ FRAME_CONFIGS = [
     {"kind": "varint", "max": 1024}, {"kind": "varint", "max": 70000}, {"kind": "varint", "max": 127},
     {"kind": "delim", "max": 1024, "dl": 1, "strip": True}, {"kind": "delim", "max": 1024, "dl": 2, "strip": False},
     {"kind": "delim", "max": 70000, "dl": 2, "strip": True},
+    # delimiters of 3-5 bytes are self-overlapping patterns (harness frameDelim): "001", "0100", "00101"
+    {"kind": "delim", "max": 1024, "dl": 3, "strip": True}, {"kind": "delim", "max": 1024, "dl": 4, "strip": False},
+    {"kind": "delim", "max": 70000, "dl": 5, "strip": True},
     {"kind": "fixed", "n": 5}, {"kind": "fixed", "n": 1}, {"kind": "fixed", "n": 1024}, {"kind": "fixed", "n": 2049},
     {"kind": "varlen", "max": 16, "frag": "whole"}, {"kind": "varlen", "max": 1024, "frag": "whole"}, {"kind": "varlen", "max": 8, "frag": "one"},
     {"kind": "packet"},
